@@ -153,8 +153,14 @@ def run(tier, argv):
         n_batch += 1
         bad = []
         try:
+            names = list(kw)
+
+            def lanewise(vv, *pp):
+                return dist.logpdf(vv, *pp) if ri["how"] == "pos" else dist.logpdf(vv, **dict(zip(names, pp)))
             for vn, th in (("logpdf", lambda: dist.logpdf(v, *args, **kw)), ("assess", lambda: dist.assess(v, *args, **kw)[0]),
-                           ("jit", lambda: jax.jit(lambda vv: dist.logpdf(vv, *args, **kw))(v))):
+                           ("jit", lambda: jax.jit(lambda vv: dist.logpdf(vv, *args, **kw))(v)),
+                           ("modular_vmap over the rows", lambda: modular_vmap(lanewise, in_axes=0)(v, *ps)),
+                           ("jax.vmap over the rows", lambda: jax.vmap(lanewise, in_axes=0)(v, *ps))):
                 out = np.asarray(th())
                 if out.shape == (2,):
                     if any(abs(float(out[k]) - wants[k]) > 3e-5 * (1 + abs(wants[k])) for k in (0, 1)):
